@@ -40,4 +40,15 @@ def vleX (n0 n1 : α) : α := n0 / (n0 + n1)
 /-- the range check on the completed fractions (`CalculationError` when violated) -/
 def fractionsValid [LinearOrder α] (x : List α) : Bool := x.all (fun v => decide (0 ≤ v) && decide (v ≤ 1))
 
+/-! ### certificate of a returned result (the IAST equations re-evaluated from the returned loadings) -/
+
+/-- adsorbed mole fractions of a returned loading vector: `x_i = n_i / Σ_j n_j` -/
+def fractionsOf (loads : List α) : List α := loads.map (· / loads.sum)
+
+/-- the residual vector of `spreading_pressure_differences`: `π_i − π_{i+1}` for consecutive components -/
+def spreadDiffs (sp : List α) : List α := List.zipWith (· - ·) sp sp.tail
+
+/-- residual of the ideal-mixing rule for a returned total loading: `1/n_t − Σ x_i / n_i⁰` -/
+def mixingResidual (x n0 : List α) (total : α) : α := 1 / total - inverseLoading x n0
+
 end PgVerif.Model.Iast
